@@ -51,6 +51,13 @@ def check(model: Model, run: Run) -> None:
                         run.fail(Finding("E2-own-error-type", p.outcome.exc.func, f"raise {exc_short(p)}",
                                          f"a sending call is refused with {exc_short(p)}, which is not the library's LDAPError", f"{model.relpath(SESSION_MOD)}:{p.outcome.exc.line}", p.trace()))
             # ---- server-only rules
+            if q == SERVER:
+                # what is outstanding is what the peer asked: only the receive path may add to the set
+                for e in [x for x in p.effects if x.kind == "set_add" and x.a == OUT]:
+                    run.ob("E5-requests-become-outstanding-only-on-receive", False, {"entry": f"LDAPServer.{p.entry}", "added": desc(e.b)})
+                    run.fail(Finding("E5-requests-become-outstanding-only-on-receive", f"{q}.{p.entry}", f"{OUT}.add({desc(e.b)})",
+                                     f"LDAPServer.{p.entry} adds {desc(e.b)} to the outstanding requests itself: the response it then sends is not an answer to anything "
+                                     "the peer has open", where(ex, e), p.trace()))
             if q == SERVER and p.pre_state != "CLOSED":
                 for e in exts:
                     o = ext_msg(e)
